@@ -1,3 +1,2 @@
 SPECIFICATION Spec
-INVARIANT MachineAgrees
 CHECK_DEADLOCK FALSE
